@@ -143,75 +143,14 @@ def st_order_case():
 def interleaved(ctx, stride):
     """the encoders are pure functions of (r, s, order): two threads encoding for different orders, with a
     context switch at every line of ecdsa.util, must get the sequential results (no hidden shared state)"""
-    from .. import sched as S
     import ecdsa.util as UM
-    codes = S.code_objects(UM.sigencode_string_canonize, UM.sigencode_strings_canonize, UM.sigencode_der_canonize,
-                           UM.sigencode_string, UM.sigencode_strings, UM.sigencode_der, UM.number_to_string,
-                           UM.orderlen)
-    for nm in dir(UM):
-        f = getattr(UM, nm)
-        if callable(f) and getattr(f, "__module__", "") == "ecdsa.util" and hasattr(f, "__code__") \
-                and f.__code__ not in codes:
-            codes.append(f.__code__)
+    from .purity import interleaved_pure
     n1, n2 = gen.named("NIST256p").n, gen.named("NIST384p").n
     jobs = {
         "a": lambda: [UM.sigencode_string_canonize(5, n1 // 2 + 7, n1), UM.sigencode_der_canonize(5, n1 - 3, n1)],
         "b": lambda: [UM.sigencode_string_canonize(9, n1 // 2 + 7, n2), UM.sigencode_strings_canonize(9, n2 - 2, n2)],
     }
-    want = {k: f() for k, f in jobs.items()}
-    with S.Monitor(S.Sched(), codes, lines=True) as mon:
-        def run(plan):
-            sc = S.Sched()
-            mon.sched = sc
-            res = {}
-            for key in ("a", "b"):
-                sc.spawn(lambda t, key=key: res.__setitem__(key, jobs[key]()), key)
-            seg = {"i": 0}
-
-            def chooser(sc_, runnable, step):
-                while True:
-                    if seg["i"] >= len(plan):
-                        sc_.quiet = True
-                        return 0
-                    ti, cnt = plan[seg["i"]]
-                    seg["i"] += 1
-                    t = sc_.threads[ti]
-                    if t.done or cnt == 0:
-                        continue
-                    if cnt is None:
-                        sc_.quiet = True
-                    else:
-                        sc_.quiet = False
-                        t.skip = cnt - 1
-                    return runnable.index(t)
-            sc.step_timeout = 3.0
-            sc.run(chooser)
-            return res, sc
-        _, sc0 = run([[0, 10 ** 9]])
-        na = sc0.threads[0].switches
-        _, sc1 = run([[1, 10 ** 9]])
-        nb = sc1.threads[1].switches
-        if na == 0 or nb == 0:
-            raise RuntimeError("no switch points recorded in ecdsa.util")
-        for first, cnt in ((0, na), (1, nb)):
-            for i in range(0, cnt + 1, stride):
-                for j in (None, 3, 9):
-                    plan = [[first, i], [1 - first, j], [first, None], [1 - first, None]]
-                    ctx.ev()
-                    res, sc = run(plan)
-                    case = {"kind": "interleaved", "plan": plan}
-                    if sc._stuck_thread is not None:
-                        # preempted inside a critical section of the library that excludes the other thread
-                        ctx.event("interleaved:stuck-schedules")
-                        continue
-                    for t in sc.threads:
-                        if t.exc is not None:
-                            ctx.fail("interleaved/exception/%s" % type(t.exc).__name__, case, repr(t.exc))
-                    for key in ("a", "b"):
-                        if key in res and res[key] != want[key]:
-                            ctx.fail("interleaved/wrong-result", case, "thread %s got %r, sequential %r" % (key, res[key], want[key]))
-                    ctx.nontrivial_enum()
-    ctx.sample({"kind": "interleaved", "switch_points": [na, nb], "stride": stride})
+    interleaved_pure(ctx, "encoders", [UM], jobs, stride, max_schedules=20000)
 
 
 def units(tier, seed):
